@@ -106,6 +106,9 @@ func runC05(c *ctx) error {
 				for _, cfg := range cfgs {
 					ver := world.NewVersion("1.0", cfg.p, world.VersionOpts{})
 					pc := &world.Client{Versions: []*world.Version{ver}}
+					// the server-time validator is an intake device: a node whose clock refuses everything must resolve alike
+					verR := world.NewVersion("1.0", cfg.p, world.VersionOpts{ParserOpts: []operationparser.Option{operationparser.WithAnchorTimeValidator(okTV{false})}})
+					pcR := &world.Client{Versions: []*world.Version{verR}}
 					md := func(uint64) (int64, bool) { return int64(cfg.p.MaxOperationTimeDelta), true }
 
 					// intake: arguments handed to the time validator
@@ -149,7 +152,12 @@ func runC05(c *ctx) error {
 							{Op: create, OID: 1, Time: 5, Num: 0, CRef: 1, PVer: 5},
 							{Op: op, OID: 2, Time: uint64(a), Num: 1, CRef: 2, PVer: uint64(a)},
 						}}
-						oc := h.Run(pc, tb, oidOf)
+						usePC, tvKind := pc, "none"
+						if caseNo%2 == 1 {
+							usePC, tvKind = pcR, "refusing"
+						}
+						oc := h.Run(usePC, tb, oidOf)
+						r.Count("resolution_time_validator", tvKind)
 						in := "out"
 						if len(oc.Doc) == 2 || oc.Deact {
 							in = "in"
